@@ -1,41 +1,32 @@
 #!/usr/bin/env python3
-"""Regenerates /verif/MANIFEST.json from the table below (keeps the manifest consistent and always valid)."""
+"""Regenerates /verif/MANIFEST.json from the MANIFEST dict literal of every vlib/props/cXX.py (keeps it consistent and valid)."""
+import ast
 import json
 import os
 
 HERE = os.path.dirname(os.path.dirname(os.path.abspath(__file__)))
+NOT_APPLICABLE = {}   # id -> reason, for properties deliberately not claimed
 
-# id -> (category, technique, level text, level note, design ref)
-CHECKS = {
-    "C15": ("exploration",
-            "runtime monitor: reference line-splitter + output contracts on the real line-buffer loop, exhaustive chunk schedules",
-            "Drives the real CodeGenerator._generate_with_line_buffer and SupportGenerator._copy_header_using_line_pps with "
-            "every chunking of every text up to a small length over {a,space,tab,CR,LF}, random rich texts with schedules aimed "
-            "inside CRLF, and the chunk streams Jinja really produces for the built-in templates (tee'd at the real call site), "
-            "comparing the written stream with line-by-line application and with direct trim/limit/identity contracts. "
-            "Exhaustive inside the stated bounds, sampled beyond.",
-            "Trusts the 20-line reference splitter (LF/CRLF only, the code's own terminator definition) and Python's str.isspace "
-            "as the widest whitespace definition.", "DESIGN.md §3 C15"),
-    "C13": ("exploration",
-            "runtime contracts (icontract) on the real deep_update + reference-precedence oracle over builder/CLI executions and context histories",
-            "icontract post-conditions on the real deep_update (result equals a 15-line reference merge incl. DefaultValue rules; source "
-            "unchanged) evaluated on every (recursive) call made by random merge histories, by LanguageContextBuilder.create() with 0-3 "
-            "YAML files + overrides, and by the real CLI (--list-configuration read back); histories of 2-6 builders/contexts in one "
-            "process re-read every earlier context after each creation. Sampled, not exhaustive.",
-            "Trusts the reference merge and the documented language post-rules (Python forces asserts; C++ std shorthand applies its group as a unit).",
-            "DESIGN.md §3 C13"),
-}
 
-NOT_YET = {}
+def module_meta(pid):
+    p = os.path.join(HERE, "vlib", "props", pid.lower() + ".py")
+    if not os.path.exists(p):
+        return None
+    tree = ast.parse(open(p, encoding="utf-8").read())
+    for node in tree.body:
+        if isinstance(node, ast.Assign) and any(getattr(t, "id", None) == "MANIFEST" for t in node.targets):
+            return ast.literal_eval(node.value)
+    return None
 
 
 def main():
     props = [json.loads(l) for l in open(os.path.join(HERE, "properties.jsonl"))]
-    checks, na = [], []
+    checks, na, served = [], [], []
     for p in props:
         pid = p["id"]
-        if pid in CHECKS:
-            cat, tech, text, note, ref = CHECKS[pid]
+        m = None if pid in NOT_APPLICABLE else module_meta(pid)
+        if m:
+            served.append(pid)
             checks.append({
                 "property_id": pid,
                 "quick_cmd": "./check %s --tier quick" % pid,
@@ -43,33 +34,39 @@ def main():
                 "evidence_file": "evidence/%s.json" % pid,
                 "replay_cmd_template": "./check %s --replay {path}" % pid,
                 "engine": "vlib",
-                "level_claimed": {"category": cat, "text": text, "design_ref": ref},
-                "level_note": note,
-                "technique": tech,
+                "level_claimed": {"category": m["category"], "text": m["text"], "design_ref": "DESIGN.md §3 %s" % pid},
+                "level_note": m["note"],
+                "technique": m["technique"],
             })
         else:
-            na.append({"property_id": pid, "reason": NOT_YET.get(pid, "check not built yet in this session (planned, see DESIGN.md §3); not claimed until its monitor exists and is silent on the unchanged tree")})
+            na.append({"property_id": pid, "reason": NOT_APPLICABLE.get(
+                pid, "check not built yet in this session (planned, see DESIGN.md §3); not claimed until its monitor exists "
+                     "and is silent on the unchanged tree")})
     m = {
         "version": 1,
         "setup_cmd": "sh setup.sh",
         "hooks": {
             "guard": "NUNAVUT_VERIF",
-            "enable": "no hooks are compiled into /repo: ./check sets NUNAVUT_VERIF=1 only for /verif's own launcher/drivers, which install "
-                      "wrappers, audit hooks and contracts from outside; /repo is executed from its working tree via PYTHONPATH=/repo/src",
-            "baseline_off_cmd": "cd /repo && env -u NUNAVUT_VERIF /venv/bin/python -m pytest -ra -q -p no:cacheprovider --timeout=900 --continue-on-collection-errors",
+            "enable": "no hooks are compiled into /repo: ./check sets NUNAVUT_VERIF=1 only for /verif's own launcher/drivers, which "
+                      "install wrappers, audit hooks and contracts from outside; /repo is executed from its working tree via "
+                      "PYTHONPATH=/repo/src",
+            "baseline_off_cmd": "cd /repo && env -u NUNAVUT_VERIF /venv/bin/python -m pytest -ra -q -p no:cacheprovider "
+                                "--timeout=900 --continue-on-collection-errors",
             "source_commits": [],
             "add_only": True,
         },
-        "engines": [{"name": "vlib", "path": "vlib/", "serves_properties": sorted(CHECKS),
-                     "kind_free_text": "runtime monitoring: real generator + generated artefacts executed under sanitizers / reference-model oracles / contracts"}],
+        "engines": [{"name": "vlib", "path": "vlib/", "serves_properties": served,
+                     "kind_free_text": "runtime monitoring: real generator + generated artefacts executed under sanitizers / "
+                                       "reference-model oracles / contracts"}],
         "checks": checks,
         "not_applicable": na,
-        "notes": "Technique family: runtime monitoring and sanitizers. Exit codes: 0 held, 1 VIOLATION, 2 INCONCLUSIVE (deciding monitor not reached). "
-                 "Known/fixed findings: KNOWN_FINDINGS.txt.",
+        "notes": "Technique family: runtime monitoring and sanitizers. Exit codes: 0 held, 1 VIOLATION, 2 INCONCLUSIVE (deciding monitor "
+                 "not reached). Known/fixed findings: KNOWN_FINDINGS.txt.",
     }
     with open(os.path.join(HERE, "MANIFEST.json"), "w") as f:
         json.dump(m, f, indent=1)
         f.write("\n")
+    print("manifest: %d checks, %d not claimed" % (len(checks), len(na)))
 
 
 if __name__ == "__main__":
